@@ -16,7 +16,7 @@ mkdir -p $D; cp "$OUT/change$N.diff" $D/patch.diff; cp "$OUT/demo$N.py" $D/demo.
 res=""
 for c in "$@"; do
   o=$(SHOW=6 /verif/tools/mutant_run.sh $D/patch.diff $TIER $c 2>&1)
-  echo "$o" | grep -E "VIOLATION|signature=|tier=|PATCH FAILED|HARNESS" | head -6
+  echo "$o" | grep -v "^KNOWN-FINDING" | grep -E "^VIOLATION|signature=|tier=|PATCH FAILED|HARNESS" | head -6
   if echo "$o" | grep -q "^VIOLATION"; then res="$res $c:caught"; else res="$res $c:missed"; fi
 done
 /venv/bin/python - "$P" "$N" "$base" "$mut" "$suite" "$res" "$TIER" <<'PY'
